@@ -61,7 +61,7 @@ def generate(seed, tier):
     if g.chance(0.15):
         nss.append("")  # the empty namespace (what xmlns="" in RDF/XML binds)
     nh = g.randint(1, 3)
-    cfg = {"store": g.choice(["memory", "memory", "simple", "auditable-memory", "auditable-simple"]), "handles": [g.choice(["none", "core", "rdflib", "core"]) for _ in range(nh)], "iris": iris, "nss": nss}
+    cfg = {"store": g.choice(["memory", "memory", "simple", "auditable-memory", "auditable-simple", "sparql"]), "handles": [g.choice(["none", "core", "rdflib", "core"]) for _ in range(nh)], "iris": iris, "nss": nss}
     w = {"bind": g.choice([2, 4, 6]), "qname": g.choice([2, 4, 8]), "parse": g.choice([0, 1]), "serialize": g.choice([0, 1]), "expand": 1, "reset": g.choice([0, 0, 1]), "storebind": g.choice([0, 0, 1]), "peek": g.choice([0, 1, 2])}
     nsteps = g.randint(3, 30 if tier == "quick" else 60)
     ops = []
@@ -126,6 +126,13 @@ def execute(trace, ctx):
 
     cfg = trace["config"]
     store = Memory() if cfg["store"] in ("memory", "auditable-memory") else SimpleMemory()
+    if cfg["store"] == "sparql":
+        # the client store of a SPARQL endpoint keeps the bindings locally (nothing here contacts the endpoint: documents that are
+        # parsed only declare prefixes, nothing is serialised)
+        from rdflib.plugins.stores.sparqlstore import SPARQLStore
+
+        store = SPARQLStore("http://sim.invalid/sparql")
+        ctx.probe("bindings-in-sparql-client-store")
     if cfg["store"].startswith("auditable"):
         # the bindings behind a wrapper that passes them through
         from rdflib.plugins.stores.auditable import AuditableStore
@@ -251,9 +258,11 @@ def execute(trace, ctx):
                 ctx.log(k, f"h{h} {iri} -> {pfx}:{local}")
         elif k == "parse":
             kw = "@prefix %s: <%s> ." if op["style"] == "@prefix" else "PREFIX %s: <%s>"
-            doc = "\n".join(kw % (p, n) for p, n in op["decl"]) + "\n<http://ex.org/s> <http://ex.org/p> <http://ex.org/o> .\n"
+            doc = "\n".join(kw % (p, n) for p, n in op["decl"]) + ("\n<http://ex.org/s> <http://ex.org/p> <http://ex.org/o> .\n" if cfg["store"] != "sparql" else "\n")
             g.parse(data=doc, format="turtle")
             last_bind_by[0] = h
+        elif k == "serialize" and cfg["store"] == "sparql":
+            continue
         elif k == "serialize":
             for s, p, o in op["triples"]:
                 g.add((URIRef(s), URIRef(p), URIRef(o)))
